@@ -17,6 +17,12 @@ pub trait Machine {
     fn confluence_class(&self, _key: &[u8]) -> Option<Vec<u8>> {
         None
     }
+    /// the part of the key that must be the same for every state of one confluence class (default: all of it).
+    /// Machines whose keys carry a history tag (number of cuts so far ...) so that states reached through an
+    /// export/import are expanded in their own right exclude the tag here.
+    fn confluence_value<'k>(&self, key: &'k [u8]) -> &'k [u8] {
+        key
+    }
 }
 
 pub struct BfsStats {
@@ -81,14 +87,14 @@ pub fn bfs<M: Machine>(m: &M, rep: &mut Report, max_depth: usize, max_states: us
                 };
                 if let Some(c) = m.confluence_class(&key) {
                     if let Some((k0, h0)) = classes.get(&c) {
-                        if *k0 != key {
+                        if m.confluence_value(k0) != m.confluence_value(&key) {
                             let (k0, h0) = (k0.clone(), h0.clone());
                             rep.cases -= 1;
                             rep.case(|| {
                                 // both histories are re-executed so that the recorded trace contains them
                                 let a = m.run(&h0)?;
                                 let b = m.run(&h2)?;
-                                if a != b {
+                                if a.as_deref().map(|k| m.confluence_value(k)) != b.as_deref().map(|k| m.confluence_value(k)) {
                                     return fail("confluence", format!("two histories that consumed the same input reach different canonical states: {:?} -> {} vs {:?} -> {}", h0, crate::util::short(&k0), h2, crate::util::short(b.as_deref().unwrap_or(&[]))));
                                 }
                                 Ok(())
